@@ -271,6 +271,9 @@ func ruleC10Reset(r *Run) {
 					if constructionCopy(st) {
 						continue // a copy of the context carries the same router
 					}
+					if underConstruction(st) {
+						continue // a context that this function has just allocated (not one from the pool)
+					}
 					isCtor := false
 					for _, cf := range poolCtorFns(w) {
 						if cf == root || cf == f {
